@@ -298,6 +298,11 @@ class Engine:
             self.oblige(st, f"pre@L{lineno}:{c.qualname}", "pre@callsite", pre, lineno)
             if not self.spec_mode and not self.guards:
                 st.pc.append(pre)
+        # exceptions the callee may raise propagate: the exception edge must be
+        # infeasible here, or allowed by the caller's own raises clause
+        for exc_name, cond in c.raises.items():
+            may = self.truthy(self.ev_clause(cond, env))
+            self.safety(st, z3.Not(may), exc_name, lineno, f"callee-{c.qualname}")
         # decreases for recursion
         if c is self.c and not self.spec_mode and self.emit:
             if not c.decreases:
